@@ -253,9 +253,9 @@ class NeuOptPolicy(ImprovementPolicy):
             # Process if k-opt close
             # assert (input_q1[stopped] == input_q2[stopped]).all()
             if i > 0:
-                stopped = stopped | (action_sampled == next_of_last_action).squeeze()
+                stopped = stopped | (action_sampled == next_of_last_action).squeeze(-1)
             else:
-                stopped = (action_sampled == next_of_last_action).squeeze()
+                stopped = (action_sampled == next_of_last_action).squeeze(-1)
             # assert (input_q1[stopped] == input_q2[stopped]).all()
 
             k_action_left[stopped, i] = k_action_left[stopped, i - 1]
